@@ -51,7 +51,7 @@ type c34Net struct {
 	next  byte
 	// fault parameters (per mille), applied by every sender with its own PRNG
 	drop, reorder, dup int
-	sent, dropped      int
+	sent, dropped, held, duped int
 }
 
 type c34PC struct {
@@ -167,6 +167,9 @@ func (pc *c34PC) WriteTo(p []byte, dstAddr net.Addr) (int, error) {
 		return len(p), nil
 	}
 	if doHold && pc.held == nil {
+		pc.tn.mu.Lock()
+		pc.tn.held++
+		pc.tn.mu.Unlock()
 		pc.held, pc.heldDst = &pkt, dst
 		pc.fmu.Unlock()
 		return len(p), nil
@@ -176,6 +179,9 @@ func (pc *c34PC) WriteTo(p []byte, dstAddr net.Addr) (int, error) {
 	pc.fmu.Unlock()
 	pc.deliver(dst, pkt)
 	if doDup {
+		pc.tn.mu.Lock()
+		pc.tn.duped++
+		pc.tn.mu.Unlock()
 		pc.deliver(dst, testPacket{b: bytes.Clone(p), src: pc.addr})
 	}
 	if release != nil {
@@ -403,6 +409,10 @@ func c34Handler(hp c34ReadPlan, rp c34RespPlan, obs *c34Observed, done chan stru
 		}
 		switch rp.trmode {
 		case "d":
+			if rp.status == 0 && len(rp.writes) == 0 {
+				// nothing sent the header yet: fix the header set first, as net/http handlers must
+				w.WriteHeader(200)
+			}
 			for _, f := range rp.tr {
 				w.Header().Add(f.name, f.val)
 			}
@@ -426,6 +436,8 @@ type c34Rig struct {
 	mu     sync.Mutex
 	h      http.Handler
 	prog   *atomic.Int64
+	eps    []*quic.Endpoint
+	stalled bool // an operation of this case ran into the virtual-time deadline
 }
 
 func (rig *c34Rig) ServeHTTP(w http.ResponseWriter, r *http.Request) {
@@ -452,7 +464,7 @@ func newC34Rig(t *testing.T, prog *atomic.Int64) *c34Rig {
 		if err != nil {
 			t.Fatal(err)
 		}
-		t.Cleanup(func() { e.Close(canceledCtx) })
+		rig.eps = append(rig.eps, e)
 		return e
 	}
 	rig.srv = &server{config: c34Config(0), handler: rig}
@@ -461,6 +473,24 @@ func newC34Rig(t *testing.T, prog *atomic.Int64) *c34Rig {
 	rig.rawEP = mk(c34Config(0))
 	go rig.srv.serve(rig.srvEP)
 	return rig
+}
+
+// dialFailed: the QUIC handshake did not complete under the injected faults (handshake timeout);
+// treated like a stall (connection establishment under loss is property C19's concern).
+func (rig *c34Rig) dialFailed(err error) {
+	if os.Getenv("VERIF_C34_DEBUG") != "" {
+		fmt.Fprintf(os.Stderr, "C34 debug: dial error: %v\n", err)
+	}
+	rig.stalled = true
+}
+
+// close tears the whole rig down (every case gets fresh endpoints, a fresh server and a fresh
+// network, so a case replays identically on its own).
+func (rig *c34Rig) close() {
+	for _, e := range rig.eps {
+		e.Close(canceledCtx)
+	}
+	synctest.Wait()
 }
 
 const c34CaseTimeout = 120 * time.Second // synctest (virtual) time: fires when a case is stuck
@@ -474,6 +504,9 @@ type c34Case struct {
 
 func c34ClientObserve(resp *http.Response, err error, cp c34ReadPlan) string {
 	if err != nil {
+		if os.Getenv("VERIF_C34_DEBUG") != "" {
+			fmt.Fprintf(os.Stderr, "C34 debug: RoundTrip error: %v\n", err)
+		}
 		return "err rt"
 	}
 	body, end := cp.run(resp.Body)
@@ -505,9 +538,14 @@ func (r *c34ChunkReader) Close() error { r.closed = true; return nil }
 
 // e2e runs one request through the real client and the real server.
 // Returns the three result lines (req, wres, cres).
-func (rig *c34Rig) e2e(c c34Case, method, path string, cl int, nobody bool, h []c34Field, chunks [][]byte, tr []c34Field, o *vu.Out) (string, string, string) {
+func (rig *c34Rig) e2e(c c34Case, method, path string, cl int, nobody bool, h []c34Field, chunks [][]byte, tr []c34Field, o c34Sink) (string, string, string) {
 	ctx, cancel := context.WithTimeout(context.Background(), c34CaseTimeout)
 	defer cancel()
+	defer func() {
+		if ctx.Err() == context.DeadlineExceeded {
+			rig.stalled = true
+		}
+	}()
 	obs := &c34Observed{}
 	done := make(chan struct{})
 	rig.mu.Lock()
@@ -522,6 +560,7 @@ func (rig *c34Rig) e2e(c c34Case, method, path string, cl int, nobody bool, h []
 	}
 	cc, err := tr1.dial(ctx, rig.srvEP.LocalAddr().String(), nil)
 	if err != nil {
+		rig.dialFailed(err)
 		return "err dial", "err dial", "err dial"
 	}
 	defer func() {
@@ -668,7 +707,7 @@ func (rig *c34Rig) e2e(c c34Case, method, path string, cl int, nobody bool, h []
 // respOracle states the property for the response direction directly: what the handler's
 // Write calls accepted must be what the client reads, and a shortfall against the declared
 // Content-Length must end in an error, not a clean EOF.
-func (rig *c34Rig) respOracle(c c34Case, method string, obs *c34Observed, cres string, over string, o0 *vu.Out) {
+func (rig *c34Rig) respOracle(c c34Case, method string, obs *c34Observed, cres string, over string, o0 c34Sink) {
 	o := &c34Failer{o0, over}
 	var accepted []byte
 	wi := 0
@@ -760,10 +799,35 @@ func (rig *c34Rig) respOracle(c c34Case, method string, obs *c34Observed, cres s
 	}
 }
 
+// c34Sink receives oracle verdicts and coverage counters.
+type c34Sink interface {
+	Fail(sig, desc string)
+	Stat(key string)
+}
+
+// c34Buf buffers them until the attempt is known not to have stalled.
+type c34Buf struct {
+	fails [][2]string
+	stats []string
+}
+
+func (b *c34Buf) Fail(sig, desc string) { b.fails = append(b.fails, [2]string{sig, desc}) }
+func (b *c34Buf) Stat(key string)       { b.stats = append(b.stats, key) }
+func (b *c34Buf) flush(o *vu.Out) {
+	for _, f := range b.fails {
+		o.Fail(f[0], f[1])
+	}
+	for _, k := range b.stats {
+		o.Stat(k)
+	}
+}
+
 type c34Failer struct {
-	o    *vu.Out
+	o    c34Sink
 	over string
 }
+
+func (f *c34Failer) Stat(key string) { f.o.Stat(key) }
 
 func (f *c34Failer) Fail(sig, desc string) {
 	if f.over != "" {
@@ -845,9 +909,14 @@ func c34RawTotal(frames []c34RawFrame) (data []byte) {
 }
 
 // rawReq: a raw QUIC peer writes a request (HEADERS, frames, optional trailers, FIN) to the real server.
-func (rig *c34Rig) rawReq(c c34Case, method, clStr string, trdecl bool, frames []c34RawFrame, tr []c34Field, o *vu.Out) string {
+func (rig *c34Rig) rawReq(c c34Case, method, clStr string, trdecl bool, frames []c34RawFrame, tr []c34Field, o c34Sink) string {
 	ctx, cancel := context.WithTimeout(context.Background(), c34CaseTimeout)
 	defer cancel()
+	defer func() {
+		if ctx.Err() == context.DeadlineExceeded {
+			rig.stalled = true
+		}
+	}()
 	obs := &c34Observed{}
 	done := make(chan struct{})
 	rig.mu.Lock()
@@ -855,6 +924,7 @@ func (rig *c34Rig) rawReq(c c34Case, method, clStr string, trdecl bool, frames [
 	rig.mu.Unlock()
 	qc, err := rig.rawEP.Dial(ctx, "udp", rig.srvEP.LocalAddr().String(), c34Config(0))
 	if err != nil {
+		rig.dialFailed(err)
 		return "err dial"
 	}
 	defer func() {
@@ -923,9 +993,14 @@ func (rig *c34Rig) rawReq(c c34Case, method, clStr string, trdecl bool, frames [
 
 // rawResp: the real client sends a bodyless request to a raw QUIC peer which answers with
 // HEADERS, frames, optional trailers, FIN.
-func (rig *c34Rig) rawResp(c c34Case, method string, status int, clStr string, trdecl bool, frames []c34RawFrame, tr []c34Field, o *vu.Out) string {
+func (rig *c34Rig) rawResp(c c34Case, method string, status int, clStr string, trdecl bool, frames []c34RawFrame, tr []c34Field, o c34Sink) string {
 	ctx, cancel := context.WithTimeout(context.Background(), c34CaseTimeout)
 	defer cancel()
+	defer func() {
+		if ctx.Err() == context.DeadlineExceeded {
+			rig.stalled = true
+		}
+	}()
 	tr1 := &transport{
 		endpoint:    rig.cliEP,
 		config:      c34Config(0),
@@ -947,6 +1022,10 @@ func (rig *c34Rig) rawResp(c c34Case, method string, status int, clStr string, t
 		if dr.cc != nil {
 			dr.cc.Close()
 		}
+		if err == nil {
+			err = dr.err
+		}
+		rig.dialFailed(err)
 		return "err dial"
 	}
 	defer func() {
@@ -1020,11 +1099,46 @@ func (rig *c34Rig) rawResp(c c34Case, method string, status int, clStr string, t
 // ---------------------------------------------------------------- exec
 
 type c34Exec struct {
-	rig *c34Rig
+	t    *testing.T
+	prog *atomic.Int64
+	rig  *c34Rig
+}
+
+// attempt runs one exchange. An attempt that runs into the 120 s virtual-time deadline under the
+// injected faults (a stall of the QUIC connection: liveness is property C19's concern, not C34's)
+// is discarded and the exchange is repeated once on a fresh rig with a perfect network; the
+// number of such retries is reported in the stats.
+func (x *c34Exec) attempt(o *vu.Out, f func(sink c34Sink) string) string {
+	buf := &c34Buf{}
+	res := vu.Catch(func() string { return f(buf) })
+	if x.rig.stalled && res != "panic" {
+		o.Stat("net:stall-retried-without-faults")
+		x.rig.close()
+		x.rig = newC34Rig(x.t, x.prog)
+		buf = &c34Buf{}
+		res = vu.Catch(func() string { return f(buf) })
+		if x.rig.stalled {
+			o.Stat("net:stall-on-perfect-network")
+			buf.Fail("stall-on-perfect-network", "exchange did not finish within 120 s of virtual time on a fault-free network")
+		}
+	}
+	buf.flush(o)
+	return res
 }
 
 func (x *c34Exec) exec(ops []string, o *vu.Out) {
-	x.rig.prog.Add(1)
+	x.prog.Add(1)
+	x.rig = newC34Rig(x.t, x.prog)
+	defer func() {
+		x.rig.close()
+		tn := x.rig.tn
+		tn.mu.Lock()
+		o.StatN("net:datagrams", tn.sent)
+		o.StatN("net:dropped", tn.dropped)
+		o.StatN("net:reordered", tn.held)
+		o.StatN("net:duplicated", tn.duped)
+		tn.mu.Unlock()
+	}()
 	c := c34Case{
 		hp: c34ReadPlan{reads: []int{4096}, stop: -1},
 		cp: c34ReadPlan{reads: []int{4096}, stop: -1},
@@ -1117,9 +1231,9 @@ func (x *c34Exec) exec(ops []string, o *vu.Out) {
 				default:
 					return
 				}
-				res = vu.Catch(func() string {
+				res = x.attempt(o, func(sink c34Sink) string {
 					var r string
-					r, wres, cres = x.rig.e2e(c, f[1], f[2], cl, f[4] == "1", h, chunks, tr, o)
+					r, wres, cres = x.rig.e2e(c, f[1], f[2], cl, f[4] == "1", h, chunks, tr, sink)
 					return r
 				})
 			case "wres":
@@ -1146,7 +1260,7 @@ func (x *c34Exec) exec(ops []string, o *vu.Out) {
 						return
 					}
 				}
-				res = vu.Catch(func() string { return x.rig.rawReq(c, f[1], f[2], f[3] == "1", frames, tr, o) })
+				res = x.attempt(o, func(sink c34Sink) string { return x.rig.rawReq(c, f[1], f[2], f[3] == "1", frames, tr, sink) })
 			case "rawresp":
 				if len(f) != 7 {
 					return
@@ -1162,7 +1276,7 @@ func (x *c34Exec) exec(ops []string, o *vu.Out) {
 						return
 					}
 				}
-				res = vu.Catch(func() string { return x.rig.rawResp(c, f[1], st, f[3], f[4] == "1", frames, tr, o) })
+				res = x.attempt(o, func(sink c34Sink) string { return x.rig.rawResp(c, f[1], st, f[3], f[4] == "1", frames, tr, sink) })
 			}
 		}()
 		if res == "panic" {
@@ -1196,7 +1310,7 @@ func TestVerifC34(t *testing.T) {
 	}()
 	defer close(stop)
 	synctest.Test(t, func(t *testing.T) {
-		x := &c34Exec{rig: newC34Rig(t, &prog)}
+		x := &c34Exec{t: t, prog: &prog}
 		vu.Run(vu.ConfigFromEnv(), c34Gen, x.exec)
 	})
 }
